@@ -67,6 +67,13 @@ Theorem C06_lldp_roundtrip : forall l csum junk bytes l' old,
 Proof. exact ll_roundtrip. Qed.
 Print Assumptions C06_lldp_roundtrip.
 
+(* ... and re-serializing the decoded layer gives the same bytes *)
+Theorem C06_lldp_fixpoint : forall l csum junk bytes l' old d junk2,
+  lldp_wf l -> ll_serialize l [] true csum junk = (Ok bytes, l') -> ll_decode_into old bytes = (d, Ok tt, false) ->
+  fst (ll_serialize d [] true csum junk2) = Ok bytes.
+Proof. exact ll_fixpoint. Qed.
+Print Assumptions C06_lldp_fixpoint.
+
 Theorem C01_lldp_render_total : forall old data, ll_render_panics (fst (fst (ll_decode_into old data))) = false.
 Proof. reflexivity. Qed.
 
